@@ -8,7 +8,7 @@ bad=0; seed=$FIRST; last=$((FIRST+COUNT))
 while [ "$seed" -lt "$last" ]; do
   for id in $IDS; do
     out=$(VERIF_SEED=$seed timeout 1800 ./check "$id" --tier quick --no-evidence 2>&1); rc=$?
-    if [ $rc -ne 0 ]; then bad=$((bad+1)); echo "NONZERO id=$id tier=quick seed=$seed rc=$rc"; echo "$out" | grep -E -A12 "VIOLATION|INCONCLUSIVE|mechanism=|Traceback" | head -30; fi
+    if [ $rc -ne 0 ]; then bad=$((bad+1)); echo "NONZERO id=$id tier=quick seed=$seed rc=$rc"; printf "%s\n" "$out" | grep -E -A12 "VIOLATION|INCONCLUSIVE|mechanism=|Traceback" | head -30; fi
   done
   echo "done quick seed=$seed bad_so_far=$bad"; seed=$((seed+1))
 done
